@@ -649,7 +649,11 @@ pub fn handle_xreadgroup(storage: &Arc<StorageEngine>, db: usize, parts: &[RespF
         let stream = match storage.get(db, key)? {
             GetResult::Found(Value::Stream(stream)) => stream,
             GetResult::Found(_) => return Ok(RespFrame::error("WRONGTYPE Operation against a key holding the wrong kind of value")),
-            _ => continue, // Skip non-existent keys
+            // A key that does not exist has no group either
+            _ => return Ok(RespFrame::error(format!(
+                "NOGROUP No such key '{}' or consumer group '{}' in XREADGROUP with GROUP option",
+                String::from_utf8_lossy(key), group_name
+            ))),
         };
         
         // Parse the ID
